@@ -259,6 +259,8 @@ def export_job(job):
 
 def _struct_mutants(net):
     """Mutants of an exported structure: (name, expected conjuncts, mutated copy)."""
+    import roadnet_export as X
+
     out = []
     F, S, cls, n = net["F"], net["S"], net["cls"], net["n"]
 
@@ -276,6 +278,7 @@ def _struct_mutants(net):
             if sum(1 for z in range(1, n + 1) if F["pred"][z - 1] == x and cls[z - 1] == cls[x - 1]) == 1:
                 c = clone("drop-successor", ["PredSuccAgree"])
                 c["F"]["succ"][x - 1] = 0
+                X.add_inverse_index(c)
                 out.append(c)
                 break
     # re-parent a lane section: s.lane := another lane
@@ -444,6 +447,8 @@ def audit_batch(nets, tag="0", workers=4):
             raise MachineryError(f"TLC failed on RoadNet:\n{res.error}\n{res.stdout[-1500:]}")
         # a conjunct is violated on some network: TLC stopped there.  Collect every verdict.
         strict_failed = res.invariant_violated
+        if strict_failed == "I_InverseIndexExact":
+            raise MachineryError("the exporter's inverse successor/predecessor index is not exact (harness bug)")
         runs.append(("RoadNet(strict, stopped at " + strict_failed + ")", res))
         res = run_tlc("RoadNet", roadnet_cfg(False), env={"NETS": path}, coverage=True, timeout=3000,
                       workers=workers, heap="4g")
@@ -521,8 +526,8 @@ def roadnet_part(ck, tier):
         add(p, {}, "parsed")
     if tier == "quick":
         rnd = random.Random(sd)
-        for p in small:  # small maps: three option sets (rotating with the seed) parsed, one cached
-            for o in rnd.sample(OPTION_SETS[1:], 3):
+        for p in small:  # small maps: two option sets (rotating with the seed) parsed, one cached
+            for o in rnd.sample(OPTION_SETS[1:], 2):
                 add(p, o, "parsed", b=120)
             add(p, {}, "cached")
         # two bigger maps from their cache (rotating with the seed), and one under other options
@@ -531,8 +536,8 @@ def roadnet_part(ck, tier):
             add(p, {}, "cached")
         if big:
             add(rnd.choice(big), rnd.choice(OPTION_SETS[1:]), "parsed")
-        for p in small:
-            for mname in MAP_MUTATIONS:
+        for p in small:  # mutated map files: the link mutation and one of the two others
+            for mname in ("unlink-roads", rnd.choice(("scale-widths", "duplicate-road"))):
                 add(p, {}, "parsed", mutation=mname, b=120)
     else:
         for p in present:
@@ -1026,7 +1031,7 @@ def mapcache_part(ck, tier):
     if tier == "quick":
         rnd = random.Random(sd)
         full = [r for r in records if len(r["hist"]) == maxlen]
-        keep = {json.dumps(r["hist"]) for r in rnd.sample(full, min(len(full), 400))}
+        keep = {json.dumps(r["hist"]) for r in rnd.sample(full, min(len(full), 300))}
         chosen = []
         for r in records:
             if len(r["hist"]) < maxlen or json.dumps(r["hist"]) in keep:
